@@ -54,6 +54,14 @@ def make_messages():
     pool["UNK"] = R.enc_message(1, 0x40, 8388733, 9, 0x1007, 0x2007, avp(99999, 0, b"abc", 0) + avp(1, 0, b"user"))
     pool["BIG"] = R.enc_message(1, 0xc0, 272, 4, 0x1008, 0x2008, avp(263, 0, b"s;2") + oh + orr +
                                 avp(283, 0, b"example") + avp(1, 0, b"u" * 7000))
+    # reserved command-flag bits set (RFC 6733 3: "MUST be ignored by the receiver"), and every bit at once
+    pool["DWR_RSV"] = R.enc_message(1, 0x88, 280, 0, 0x1009, 0x2009, oh + orr)
+    pool["CCR_RSV"] = R.enc_message(1, 0xc1, 272, 4, 0x100a, 0x200a, avp(263, 0, b"s;3") + oh + orr +
+                                    avp(283, 0, b"example") + avp(258, 0, (4).to_bytes(4, "big")) +
+                                    avp(461, 0, b"ctx@x") + avp(416, 0, (1).to_bytes(4, "big")) +
+                                    avp(415, 0, (0).to_bytes(4, "big")))
+    pool["UNK_ALLFLAGS"] = R.enc_message(1, 0xff, 8388734, 9, 0x100b, 0x200b, avp(1, 0, b"user"))
+    pool["DWA_RSV"] = R.enc_message(1, 0x06, 280, 0, 0x100c, 0x200c, avp(268, 0, (2001).to_bytes(4, "big")) + oh + orr)
     return pool
 
 
